@@ -135,6 +135,7 @@ class LemmaEngine(Engine):
         self.base_handlers = {}
         self.opaque_models = {}
         self.config = None
+        self.ghost_cfg = {}
         self.check_counts = {}
         self.trivial = 0
 
@@ -147,6 +148,15 @@ class LemmaEngine(Engine):
         ob = Obligation(full, tuple(spec.props), list(st.defs) + list(st.pc), goal,
                         where=self.check_counts[full], inputs=dict(self.inputs), kind=kind, lemma=spec.name)
         self.obligations.append(ob)
+
+    def exc_ref(self, name):
+        if name.startswith("Cloud"):
+            from .world import cls as wcls
+            return wcls(self, "cloudsync.exceptions:" + name)
+        if name == "_BackoffError":
+            from .world import cls as wcls
+            return wcls(self, "cloudsync.runnable:_BackoffError")
+        return ClassRef(name)
 
     def config_name(self):
         c = self.config
@@ -197,7 +207,14 @@ class LemmaEngine(Engine):
             if tag == "raise":
                 o = s.obj(v)
                 cname = o.cls.name if isinstance(o.cls, ClassRef) else "<symbolic>"
-                if isinstance(o.cls, ClassRef) and any(self.is_subclass(o.cls, ClassRef(a)) for a in allowed):
+                if isinstance(o.cls, ClassRef) and any(self.is_subclass(o.cls, self.exc_ref(a)) for a in allowed):
+                    continue
+                if not isinstance(o.cls, ClassRef):
+                    _, term, classes = o.cls
+                    goal = zor(*[term == self.exc_id(c) for c in classes
+                                 if any(self.is_subclass(c, self.exc_ref(a)) for a in allowed)])
+                    if not z3.is_true(goal):
+                        self.add_obligation(s, "only-declared-exceptions", goal, kind="total")
                     continue
                 msg = o.meta.get("msg", "")
                 self.add_obligation(s, "no-exception:%s(%s)" % (cname, msg[:60]), BF, kind="total")
